@@ -136,6 +136,9 @@ def gen_cases(rng, n):
             lines = break_lines(rng, letters, '')
             circ = kind == 'ig' and rng.random() < 0.5
             cases.append({'kind': kind, 'alpha': alpha, 'letters': letters, 'lines': lines, 'circular': circ})
+            if kind == 'ig':
+                # the title line is an arbitrary identifier -- also one spelled with the letters A, C, G, T only
+                cases[-1]['title'] = rng.choice(['title line', 'my_seq_A', 'GATA', 'TATA', 'CAT', 'A', 'TAG', 'seq 7'])
             if kind == 'fasta' and alpha == 'AA' and rng.random() < 0.35:
                 # the comment of a protein record that also names a nucleic acid ("... DNA-binding domain PROTEIN"):
                 # letters go through the DNA / RNA table first, then the amino-acid table
@@ -227,7 +230,7 @@ def run_impl(case, wd):
     if k == 'ig':
         body = list(case['lines'])
         body[-1] += '2' if case['circular'] else '1'
-        return impl_file(wd, 's.ig', f"; {KEYWORD[case['alpha']]} test\n; more\ntitle line\n" + '\n'.join(body) + '\n')
+        return impl_file(wd, 's.ig', f"; {KEYWORD[case['alpha']]} test\n; more\n{case.get('title', 'title line')}\n" + '\n'.join(body) + '\n')
     from polyply.src.gen_seq import gen_seq
     out = pathlib.Path(wd) / 'g.json'
     try:
@@ -432,6 +435,8 @@ def run(ctx):
                 ctx.feature('circular')
             if case.get('with'):
                 ctx.feature('protein_keyword_with_' + case['with'])
+            if case.get('title') and set(case['title']) <= set('ACGT'):
+                ctx.feature('ig_title_spelled_with_ACGT_only')
             if case.get('more_records'):
                 ctx.feature('fasta_with_several_records')
             if exp == 'error':
